@@ -509,7 +509,16 @@ func (u *Unit) runLit(fl *ast.FuncLit, k int) {
 		return
 	}
 	savedKey, savedLit := u.key, u.litGroup
-	u.key = fmt.Sprintf("%s$lit%d", savedKey, k)
+	bk := k
+	if u.ct != nil && len(u.ct.LitEnsures) > 0 {
+		// clauses and obligation names follow the literal the contract was written for (baseline bindings)
+		if b := u.baseLit(k); b >= 0 {
+			bk = b
+		} else {
+			bk = 1000 + k
+		}
+	}
+	u.key = fmt.Sprintf("%s$lit%d", savedKey, bk)
 	u.litGroup = true
 	defer func() { u.key, u.litGroup = savedKey, savedLit }()
 	st := &State{vars: map[*types.Var]Term{}, heaps: map[string]string{}, ghost: map[string]string{}, tainted: map[string]bool{}}
@@ -556,7 +565,7 @@ func (u *Unit) runLit(fl *ast.FuncLit, k int) {
 	}
 	u.inlineStack, u.loopStack = savedStack, savedLoops
 	// `lit K ensures`: obligations at every return of the literal (result0.. = the returned values; locals of the literal by name)
-	if u.ct != nil && len(u.ct.LitEnsures[k]) > 0 {
+	if u.ct != nil && len(u.ct.LitEnsures[bk]) > 0 {
 		rets := append([]*State{}, fr.rets...)
 		if end != nil && sig.Results().Len() == 0 {
 			rets = append(rets, end)
@@ -571,7 +580,7 @@ func (u *Unit) runLit(fl *ast.FuncLit, k int) {
 				}
 			}
 			env := &SpecEnv{u: u, st: rs, old: st, names: names, cs: u.cs, pkg: u.pkg.Types, own: true, scopePos: fl.Body.Rbrace, loopInv: true}
-			for i, cl := range u.ct.LitEnsures[k] {
+			for i, cl := range u.ct.LitEnsures[bk] {
 				nerr := len(u.specErrors)
 				env.outOfScope = false
 				g := env.evalBool(cl.Expr)
@@ -579,7 +588,7 @@ func (u *Unit) runLit(fl *ast.FuncLit, k int) {
 					u.specErrors = u.specErrors[:nerr]
 					continue
 				}
-				u.emit(rs, "post", fmt.Sprintf("post#%d", i), fmt.Sprintf("function literal #%d ensures %s", k, cl.Text), fl.Body.Rbrace, g)
+				u.emit(rs, "post", fmt.Sprintf("post#%d", i), fmt.Sprintf("function literal #%d ensures %s", bk, cl.Text), fl.Body.Rbrace, g)
 			}
 		}
 	}
